@@ -1,4 +1,4 @@
-#!/venv/bin/python
+#!/usr/bin/env python3-vt
 """Regenerates MANIFEST.json from the table below (single place to edit) and validates it."""
 import json
 import os
